@@ -1,5 +1,6 @@
 import QuantemModel.Core.Proto
 import QuantemModel.Model.Norm
+import QuantemModel.Model.NormAlias
 open Lean QuantemModel QuantemModel.Proto QuantemModel.Norm QuantemModel.Generated.Stretch
 
 /-! JSON-lines driver for C20: runs Generated/Stretch.lean and Model/Norm.lean at `Float`.
@@ -109,6 +110,26 @@ def step (st : Unit) (j : Json) : Unit × Json :=
               ("inv_ys", floatsToJson (xs.map (call icls ips))),
               ("comp", floatsToJson (xs.map (fun x => call cls ps (call icls ips x))))]))
         | _, _ => throw s!"unknown stretch {cls}/{ps.length}"
+    | "alias" =>
+        -- S(values, copy): what is returned and what the caller's array holds afterwards (Model/NormAlias.lean)
+        let cls ← strField j "cls"
+        let ps ← floatList (← field j "params")
+        let xs ← floatList (← field j "xs")
+        let copy ← boolField j "copy"
+        match (stretchByName cls ps : Option (Stretch Float)) with
+        | some s =>
+            let b := s.callBuf copy xs
+            pure (okJson (Json.mkObj [("ret", floatsToJson b.ret), ("buf", floatsToJson b.buf)]))
+        | none => throw s!"unknown stretch {cls}/{ps.length}"
+    | "callbuf" =>
+        -- CustomNormalization.__call__ through the buffer (stretch return value discarded), lazy limits
+        let cfg ← configOfJson (← field j "cfg")
+        let copy ← boolField j "copy"
+        let data := (← floatList (← field j "data")).map extOfFloat
+        pure (wrapErr (do
+          let n ← Norm.init cfg
+          let out ← n.callViaBuffer copy data
+          pure (Json.mkObj [("out", Json.arr (out.map optFloatToJson).toArray)])))
     | "defaults" =>
         let cls ← strField j "cls"
         match (defaultsByName cls : Option (List Float)) with
